@@ -4,6 +4,7 @@ CONSTANTS
  V = {1,2}
  Sizes = {0,2,4,7}
  MaxLen = 4
+ KeepHist = TRUE
  MaxOps = 4
 VIEW View
 ACTION_CONSTRAINT Emit
